@@ -96,6 +96,10 @@ def main():
                 mod.run_case(case)
             except CaseTimeout:
                 timeouts.append(case)
+                if len(timeouts) >= 5:
+                    # a tree on which case after case hangs: the run is inconclusive whatever the rest does
+                    signal.alarm(0)
+                    break
             except Exception as e:
                 COL.oracle_errors.append({"label": "driver", "err": repr(e),
                                           "tb": traceback.format_exc()[-2000:], "case": case})
